@@ -47,6 +47,9 @@ func safeAllow(extra ...string) map[string]bool {
 	for _, f := range gen.SafeFeatures {
 		m[f] = true
 	}
+	for _, f := range gen.LateFeatures {
+		m[f] = true
+	}
 	for _, f := range extra {
 		m[f] = true
 	}
